@@ -1058,7 +1058,8 @@ class C10(Check):
              ('hist3', 'BFS depth 3')]
         if tier == 'thorough':
             L.append(('hist4', 'BFS depth 4'))
-            L.append(('closure', 'BFS to the fixpoint of the state space'))
+            L.append(('closure', 'BFS to the fixpoint of the (table x disk) '
+                                 'state space, reduced menu'))
         return L
 
     def cases(self, tier, layer):
@@ -1181,6 +1182,17 @@ class C10(Check):
         if t in ('string', 'file', 'files'):
             assert spec.text_same(TEXTS[case['A']], TEXTS[case['B']]) is False
         menu = bfs_menu(via)
+        if case['menu'] == 'closure':
+            # reduced menu that still reaches every (table, disk) state:
+            # all six flag settings, one spelling per route, all assertions
+            keep = [['argv', ['-W']], ['argv', ['--write', 'table']],
+                    ['argv', ['-w', 'graph']],
+                    ['pytest', True, None, False],
+                    ['pytest', False, ['graph'], False]]
+            menu = [op for op in menu
+                    if (op[0] == 'set' and op[1] == 'RT' and
+                        op[3] != 'default')
+                    or op[0] == 'assert' or op in keep]
         if case['menu'] == 'content':
             # depth 2: [make a kind regenerate] [assert] - every table op and
             # the A-assertions; the follow-up clause runs inside step()
